@@ -23,6 +23,8 @@ CONSTANTS Kind,        \* "Grid" | "GridN" | "GridB"
           Dim,         \* dimension of the grid
           Axis,        \* model values of coordinate 1          } the box explored by TLC;
           AxisRest,    \* model values of coordinates 2..Dim    } actions work on any integers
+          Plus,        \* TRUE: only the cells of the box differing from (1,..,1) in at most one
+                       \* coordinate (a cell with all its 2*Dim neighbours, cheaply)
           HasBounds,   \* setBounds() was called
           LoB, HiB,    \* ... with [LoB, HiB]^Dim
           Limit,       \* interior-cell neighbour limit (default 2*Dim)
@@ -53,11 +55,13 @@ Heaps == Kind = "GridB"      \* the two heaps exist
 (* ------------------------------ geometry ------------------------------ *)
 Dims == 1..Dim
 AxisOf(i) == IF i = 1 THEN Axis ELSE AxisRest
-Coords == {c \in [Dims -> Axis \cup AxisRest] : \A i \in Dims : c[i] \in AxisOf(i)}
+Coords == {c \in [Dims -> Axis \cup AxisRest] :
+              /\ \A i \in Dims : c[i] \in AxisOf(i)
+              /\ Plus => Cardinality({i \in Dims : c[i] # 1}) <= 1}
 Shift(c, i, d) == [c EXCEPT ![i] = c[i] + d]
 (* the probe sequence of Grid::neighbors(): dimensions from last to first, -1 before +1 *)
 ProbeSeq(c) == [k \in 1..2 * Dim |-> Shift(c, Dim - ((k - 1) \div 2), IF k % 2 = 1 THEN -1 ELSE 1)]
-NbrCoords(c) == {ProbeSeq(c)[k] : k \in 1..2 * Dim}
+NbrCoords(c) == {Shift(c, i, d) : i \in Dims, d \in {-1, 1}}
 Adjacent(a, b) == b \in NbrCoords(a)
 (* the relation of the property statement, defined independently of the probe *)
 Abs(x) == IF x < 0 THEN -x ELSE x
@@ -224,7 +228,8 @@ Reset ==
     /\ Act("Reset", <<>>, 0, 0)
 
 NextPrio(v) == IF v = Max(Prios) THEN Min(Prios) ELSE Min({w \in Prios : w > v})
-FlipSets == {{}, present} \cup {{a, b} : a, b \in present}
+(* updateAll() after re-basing nothing, everything, every interior cell, every border cell *)
+FlipSets == {{}, present, QueueOf(St, "int"), QueueOf(St, "ext")}
 Flip(S) == [x \in S |-> NextPrio(base[x])]
 
 Next ==
@@ -250,7 +255,8 @@ TypeOK ==
     /\ \A c \in Live : border[c] \in BOOLEAN /\ cnt[c] \in Int
 
 NbrSymmetric == \A a, b \in present : (b \in NbrsOf(St, a)) <=> (a \in NbrsOf(St, b))
-NbrExact == \A a \in present : NbrsOf(St, a) = {b \in present : DiffersByOne(a, b)}
+NbrExact == \A a \in present : /\ NbrsOf(St, a) = {b \in present : DiffersByOne(a, b)}
+                               /\ {NbrSeqOf(St, a)[k] : k \in 1..Len(NbrSeqOf(St, a))} = NbrsOf(St, a)
                                /\ Len(NbrSeqOf(St, a)) = Cardinality(NbrsOf(St, a))
 
 (* components by closure partition the present cells according to the relation ...     *)
@@ -296,12 +302,13 @@ KeyOf(s) == [i \in 1..Len(CoordSeq) |->
 ExpOf(s) ==
     LET ni == Cardinality({c \in s.present : ~s.border[c]})
         ne == Cardinality({c \in s.present : s.border[c]})
+        CS == CompsOf(s)
     IN  [size  |-> Cardinality(s.present),
          cells |-> {[c |-> c, nb |-> NbrsOf(s, c), n |-> s.cnt[c], f |-> s.border[c], d |-> s.data[c]] : c \in s.present},
          abs   |-> {[c |-> c, nb |-> NbrsOf(s, c)] : c \in Coords \ s.present},
          pend  |-> {[c |-> c, n |-> s.cnt[c], f |-> s.border[c]] : c \in s.pending},
-         comps |-> SizesDesc(CompsOf(s)),
-         parts |-> CompsOf(s),
+         comps |-> SizesDesc(CS),
+         parts |-> CS,
          ni    |-> IF Heaps THEN ni ELSE 0,
          ne    |-> IF Heaps THEN ne ELSE 0,
          ti    |-> IF Heaps /\ ni > 0 THEN WantTop(s, "int") ELSE 0,
